@@ -89,6 +89,13 @@ func newGRPCDialOptions(cfg config) []grpc.DialOption {
 		dialOpts = append(dialOpts, grpc.WithTransportCredentials(cfg.gRPCCredentials.Value))
 	} else if cfg.insecure.Value {
 		dialOpts = append(dialOpts, grpc.WithTransportCredentials(insecure.NewCredentials()))
+	} else if cfg.tlsCfg.Value != nil {
+		// TLS configuration from WithTLSClientConfig or the
+		// OTEL_EXPORTER_OTLP_[LOGS_]CERTIFICATE / CLIENT_CERTIFICATE / CLIENT_KEY
+		// environment variables.
+		dialOpts = append(dialOpts, grpc.WithTransportCredentials(
+			credentials.NewTLS(cfg.tlsCfg.Value),
+		))
 	} else {
 		// Default to using the host's root CA.
 		dialOpts = append(dialOpts, grpc.WithTransportCredentials(
